@@ -244,6 +244,9 @@ class Run(object):
                 v.setdefault('replay', {})
                 v['replay'].setdefault('cfg', self.cfg)
                 v['replay'].setdefault('events', list(v.get('at_seq') or self.seq))
+                fz = {parse_event(e)[0]: MSGS[parse_event(e)[0]][0].hex() for e in v['replay']['events'] if parse_event(e)[0].startswith('FZ')}
+                if fz:
+                    v['replay'].setdefault('fuzz', fz)
                 v.pop('at_seq', None)
                 out.append(v)
         return out
@@ -274,7 +277,27 @@ class Monitor(object):
         self.violations.append(dict(kind=kind, features=sorted(features), detail=detail, at_seq=seq))
 
 
-def run_seq(cfg, seq, monitor_classes):
+def fuzz_alphabet(rng, n):
+    """register n well-framed mutations of the unit-test corpus messages as events FZ0..; returns their names"""
+    from . import corpus, mutate
+    msgs = corpus.messages()
+    names = []
+    for j in range(n):
+        t, b = rng.choice(msgs)
+        if rng.random() < 0.8:
+            b = mutate.random_mutation(b, rng)[:4077]
+        MSGS['FZ%d' % j] = (frame(t, b), dict(kind='FUZZ'))
+        names.append('FZ%d' % j)
+    return names
+
+
+def register_fuzz(d):
+    for k, hx in (d or {}).items():
+        MSGS[k] = (bytes.fromhex(hx), dict(kind='FUZZ'))
+
+
+def run_seq(cfg, seq, monitor_classes, fuzz=None):
+    register_fuzz(fuzz)
     r = Run(cfg, monitor_classes)
     for ev in seq:
         r.step(ev)
